@@ -6,6 +6,8 @@ lifetime each) under open/write/vanish/FD faults.  After every assembly the
 contract model (A1-A6) is evaluated on exit status, stdout and SimFs.
 """
 import copy
+import json
+import os
 import re
 
 from vlib.core import *
@@ -121,7 +123,7 @@ class C12(Engine):
     prop = "C12"
     title = "failure is atomic"
     quick_budget = 45
-    quick_runs = 17000
+    quick_runs = 24000
     thorough_budget = 900
     rule = ("run i = history of 3-8 operations on one persistent SimFs workspace (set valid source from the 45-CPU corpus with "
             "labels/.db/macros/.if/.include; single-point corruption of %d kinds x %d placements; plant stale output; assemble with "
@@ -142,6 +144,10 @@ class C12(Engine):
     def num_sweep(cls):
         if cls.NUM_SWEEP is None:
             cls.NUM_SWEEP = [(cpu, l[0]) for cpu in sorted(progs.corpus()) for l in progs.corpus()[cpu] if NUM_LIT.search(l[0]) and ":" not in l[0]]
+            # every mnemonic of every CPU's table with one literal operand (jumps, calls and branches to an address are not
+            # in the corpus: their encoding depends on where they stand)
+            mn = json.load(open(os.path.join(VERIF, "corpus", "mnemonics.json")))
+            cls.NUM_SWEEP += [(cpu, "%s 0x1004" % m) for cpu in sorted(mn) for m in mn[cpu]]
         return cls.NUM_SWEEP
 
     def directed(self):
